@@ -89,6 +89,38 @@ CHECKS = {
         "sender's session, so for that schedule only safety is judged (premise 'delivered at least once' not met).",
    technique="Coq proof (homomorphism of commitments and shares over the sum) + scripted and networked differential runs",
    ref="5/C04-C05"),
+ "C06": dict(
+   text="Coq theorems over the value-level library model and an EVM-side model written from EIP-196/197 and the contract's "
+        "negate/hashToG1 (Models/Evm.v): every emitted G1 encoding is 64 bytes with both coordinates < p, every non-identity G2 "
+        "encoding is 0x01 || x.im || x.re || y.im || y.re with coordinates < p; the EVM decoder accepts every emitted G1 "
+        "encoding and reads the same point; what the (laxer) library parser accepts re-encodes canonically; the contract's "
+        "negate equals the library's Neg; C06_verify_iff_evm: library acceptance <-> contract equation on the canonical "
+        "encodings, with the imported mathematics as named hypotheses (order of G1, closure of the curve, y <> 0, decoding of "
+        "pk / generator). The G2 identity encoding is refuted (known finding). Tie: three-way correspondence per case - real "
+        "bls.Verify/Sign, the extracted model (it runs the whole pairing), and the REAL go-ethereum precompiles 0x06/0x07/0x08 "
+        "- on keys {1, q-1, 2, random}, messages {empty, 1 MiB, hashes >= q}, valid signatures and 13 kinds of mutations.",
+   note=TB + "partial: bilinearity / non-degeneracy of the pairing and the group order enter as hypotheses (C10); the "
+        "agreement of all three implementations on the generated inputs is a test of them, named as such.",
+   technique="Coq proof (codec and convention lemmas; equivalence under named group-theoretic hypotheses) + three-way "
+             "differential run against the real EVM precompiles",
+   ref="5/C06"),
+ "C10": dict(
+   text="Coq theorems for ALL operands at the formula level: gfP2 Mul/Square/Invert, MulXi, gfP6 Mul/Square/MulTau, gfP12 "
+        "Square and the sparse line multiplication equal the schoolbook products of the tower (ring identities over F_p); the "
+        "Jacobian Double/Add of curve.go and twist.go equal the tangent/chord rule on affine coordinates over any field, "
+        "P+(-P) gives the identity, P+P takes the doubling branch, identity operands, MakeAffine; the constants the translator "
+        "re-reads from the source on every run (np, r2, r3, rN1, p and q from u, NAF of 6u+2, twistB, the six Frobenius "
+        "constants) satisfy their defining equations (vm_compute). Tie: translate/run.py regenerates Gen/BnConsts.v from "
+        "/repo; the value-level model (all group operations and the whole Miller loop + final exponentiation ported to Gallina) "
+        "is compared with the real code on directed field operands on BOTH gfpMul code paths, unreduced Montgomery inputs, "
+        "scalars {0,1,q-1,q,q+1,2^256-1}, P/-P, P/P, identity, pairings with G2 operands in four internal representations, "
+        "PairingCheck with identity members at every position; judges: math/big, go-ethereum's big-integer bn256, EVM precompiles.",
+   note=TB + "partial by design: associativity of the group law and bilinearity/non-degeneracy of the optimal ate pairing are "
+        "not re-proved (imported mathematics); the limb-level Montgomery arithmetic of gfp.s is covered here by directed "
+        "differential runs on both paths (a limb-level translation + proof is the planned deepening).",
+   technique="translator for constants + Coq proof (ring/field identities for tower and curve formulas) + differential "
+             "correspondence with three independent oracles",
+   ref="5/C10"),
  "C07": dict(
    text="Coq theorems over the Gallina model of the content-building stages (Models/Stages.v: padOrTrim, genSysRandom, "
         "genUserRandom, genQueryResult, the strip in recoverSign, choseSubmitter): for every last randomness < 2^256 the signed "
